@@ -38,6 +38,8 @@ fn craft_wm_codes(freq: &mut HashMap<usize, u32>, sigma: usize) -> Vec<PrefixCod
         .map(|(&k, &v)| LenInfo(k, v))
         .collect::<Vec<_>>();
 
+    #[cfg(qwt_verif)]
+    crate::verif::permute_ties(&mut f, |x| x.0);
     f.sort_by_key(|x| x.1);
 
     let mut c = vec![0; alph_size];
@@ -130,6 +132,8 @@ where
                 *map.entry(c.as_()).or_insert(0u32) += 1;
                 map
             });
+            #[cfg(qwt_verif)]
+            let freqs = crate::verif::rehash(freqs);
 
             let mut lengths = Coding::from_frequencies(BitsPerFragment(1), freqs).code_lengths();
 
@@ -179,6 +183,10 @@ where
                         "some error occurred during code translation while building huffqwt",
                     );
 
+                    #[cfg(qwt_verif)]
+                    if cur_code.len < shift {
+                        crate::verif::probe(5);
+                    }
                     if cur_code.len >= shift {
                         let symbol = ((cur_code.content >> (cur_code.len - shift)) & 1) == 1;
                         cur_bv.push(symbol);
@@ -330,8 +338,12 @@ where
 
         for level in 0..self.n_levels {
             if COMPRESSED && cur_i >= self.lens[level] {
+                #[cfg(qwt_verif)]
+                crate::verif::probe(2);
                 break;
             }
+            #[cfg(qwt_verif)]
+            crate::verif::sched_point();
 
             let symbol = self.bvs[level].get_unchecked(cur_i);
             result = (result << 1) | symbol as u32;
@@ -402,6 +414,8 @@ where
         }
 
         for level in 0..symbol_len {
+            #[cfg(qwt_verif)]
+            crate::verif::sched_point();
             let bit = ((repr >> (symbol_len - level - 1)) & 1) == 1;
 
             let offset = self.bvs[level].n_zeros();
@@ -447,6 +461,8 @@ where
         let mut rank_path_off = Vec::with_capacity(symbol_len);
 
         for level in 0..symbol_len {
+            #[cfg(qwt_verif)]
+            crate::verif::sched_point();
             path_off.push(b);
 
             let bit = ((repr >> (symbol_len - level - 1)) & 1) == 1;
@@ -464,6 +480,8 @@ where
 
         let mut result = i;
         for level in (0..symbol_len).rev() {
+            #[cfg(qwt_verif)]
+            crate::verif::sched_point();
             b = path_off[level];
             let rank_b = rank_path_off[level];
             let bit = ((repr >> (symbol_len - level - 1)) & 1) == 1;
